@@ -19,7 +19,7 @@ type Engine struct {
 	loaders         []Loader
 	environment     *Environment
 	debug           bool
-	currentTemplate string // Tracks the name of the template currently being rendered
+	currentTemplate string // Unused: the template being rendered is tracked per render context
 
 	// Test helper - override Parse function
 	Parse func(source string) (*Template, error)
@@ -133,14 +133,6 @@ func (e *Engine) SetDevelopmentMode(enabled bool) {
 func (e *Engine) Render(name string, context map[string]interface{}) (string, error) {
 	LogInfo("Rendering template: %s", name)
 
-	// Store current template name and previous template name
-	prevTemplate := e.currentTemplate
-	e.currentTemplate = name
-	defer func() {
-		// Restore previous template name when we're done
-		e.currentTemplate = prevTemplate
-	}()
-
 	template, err := e.Load(name)
 	if err != nil {
 		LogError(err, fmt.Sprintf("Failed to load template: %s", name))
@@ -151,6 +143,7 @@ func (e *Engine) Render(name string, context map[string]interface{}) (string, er
 	if e.environment.debug {
 		var buf StringBuffer
 		ctx := NewRenderContext(e.environment, context, e)
+		ctx.lastLoadedTemplate = template // relative names resolve against this template
 		defer ctx.Release()
 
 		// Use debug rendering with enhanced error reporting
@@ -180,14 +173,6 @@ func (e *Engine) Render(name string, context map[string]interface{}) (string, er
 func (e *Engine) RenderTo(w io.Writer, name string, context map[string]interface{}) error {
 	LogInfo("Rendering template to writer: %s", name)
 
-	// Store current template name and previous template name
-	prevTemplate := e.currentTemplate
-	e.currentTemplate = name
-	defer func() {
-		// Restore previous template name when we're done
-		e.currentTemplate = prevTemplate
-	}()
-
 	template, err := e.Load(name)
 	if err != nil {
 		LogError(err, fmt.Sprintf("Failed to load template: %s", name))
@@ -197,6 +182,7 @@ func (e *Engine) RenderTo(w io.Writer, name string, context map[string]interface
 	// If debug is enabled, use more detailed error reporting
 	if e.environment.debug {
 		ctx := NewRenderContext(e.environment, context, e)
+		ctx.lastLoadedTemplate = template // relative names resolve against this template
 		defer ctx.Release()
 
 		// Use debug rendering with enhanced error reporting
